@@ -601,8 +601,21 @@ fn decorrelate_scalar_subquery(
         schema: join_schema,
     });
 
-    // Create the new comparison predicate using the join result column
-    let scalar_col_expr = Expr::column(&result_col_name);
+    // Create the new comparison predicate using the join result column.
+    // An outer row without partner is NULL-extended by the Left join, but the
+    // subquery's value for it is the aggregate over no rows: that is NULL for
+    // SUM/MIN/MAX/AVG and 0 for COUNT, so a bare COUNT needs COALESCE(.., 0).
+    let scalar_col_expr = if is_bare_count(&decorrelated_subquery) {
+        Expr::ScalarFunc {
+            func: crate::planner::ScalarFunction::Coalesce,
+            args: vec![
+                Expr::column(&result_col_name),
+                Expr::Literal(crate::planner::ScalarValue::Int64(0)),
+            ],
+        }
+    } else {
+        Expr::column(&result_col_name)
+    };
 
     let new_predicate = if subquery_on_left {
         Expr::BinaryExpr {
@@ -619,6 +632,37 @@ fn decorrelate_scalar_subquery(
     };
 
     Ok(Some((join, new_predicate)))
+}
+
+/// Is the value of this scalar subquery a bare COUNT aggregate (possibly aliased or
+/// passed through a single-column projection)?
+fn is_bare_count(plan: &LogicalPlan) -> bool {
+    fn strip_alias(e: &Expr) -> &Expr {
+        match e {
+            Expr::Alias { expr, .. } => strip_alias(expr),
+            other => other,
+        }
+    }
+    fn is_count(e: &Expr) -> bool {
+        matches!(
+            strip_alias(e),
+            Expr::Aggregate {
+                func: crate::planner::AggregateFunction::Count,
+                distinct: false,
+                ..
+            }
+        )
+    }
+    match plan {
+        LogicalPlan::Aggregate(agg) => {
+            agg.group_by.is_empty() && agg.aggregates.len() == 1 && is_count(&agg.aggregates[0])
+        }
+        LogicalPlan::Project(proj) if proj.exprs.len() == 1 => match strip_alias(&proj.exprs[0]) {
+            Expr::Column(_) => is_bare_count(&proj.input),
+            other => is_count(other),
+        },
+        _ => false,
+    }
 }
 
 /// Ensure the subquery is properly grouped by correlation columns
